@@ -76,8 +76,7 @@ def check_process_input(eng, ctx):
     paths = eng.I.run(fi)
     where = fi.qual
     # (a) missing cell: state := CLOSED, ProtocolError
-    miss = [p for p in paths if any(
-        e.kind == 'catch' and 'KeyError' in e.names for e in p.events)]
+    miss = cm.lookup_miss_paths(paths, '_transitions')
     ok_a = bool(miss) and all(
         p.exit == 'raise' and p.exc['names'] == {'ProtocolError'} and
         any(e.kind == 'write' and e.attr == 'state' and
@@ -130,16 +129,7 @@ def check_process_input(eng, ctx):
            'raise ProtocolError', node=fi.node)
     # (e) the table consulted is the module's _transitions, keyed by
     # (self.state, input)
-    ok_e = False
-    for p in paths:
-        for e in p.events:
-            if e.kind == 'load' and e.container[0] == 'global' and \
-                    e.container[2] == '_transitions':
-                k = e.key
-                if k[0] == 'tuple' and len(k[1]) == 2 and \
-                        k[1][0][0] == 'a' and k[1][0][2] == 'state' and \
-                        k[1][1] == ('p', 'input_'):
-                    ok_e = True
+    ok_e = cm.lookup_keys(paths, '_transitions') == {'(self.state, input_)'}
     ctx.ob('FSM.step', where, 'table lookup keyed by (state, input)', ok_e,
            '_transitions[(self.state, input_)]', node=fi.node)
 
@@ -389,27 +379,51 @@ def check_receive_frame(eng, ctx):
     fi2 = eng.m.func('connection.H2Connection._stream_closed_by')
     ok4 = True
     srcs = []
+
+    def table_read(t, attr):
+        """t reads self.<attr>[id] (subscript or .get) -> 'sub' | 'get'"""
+        if t[0] == 'sub' and t[1][0] == 'a' and t[1][2] == attr:
+            return 'sub'
+        if t[0] == 'call' and t[1].endswith('.get') and t[2] and \
+                t[2][0][0] == 'a' and t[2][0][2] == attr and \
+                (len(t[2]) == 2 or t[2][2] == T.NONE):
+            return 'get'
+        return None
+
+    def live_fact(p):
+        """True / False / None: did the path establish that the id is in
+        the live table?"""
+        for e in p.events:
+            if e.kind != 'assume':
+                continue
+            c, pos = (e.cond[1], False) if e.cond[0] == 'not' \
+                else (e.cond, True)
+            if c[0] == 'in' and c[2][0] == 'a' and c[2][2] == 'streams':
+                return pos
+            if c[0] == 'is' and T.NONE in (c[1], c[2]):
+                other = c[2] if c[1] == T.NONE else c[1]
+                if table_read(other, 'streams') == 'get':
+                    return not pos
+            if c[0] == 'truth' and table_read(c[1], 'streams') == 'get':
+                return pos
+        return None
     for p in eng.I.run(fi2):
         if p.exit == 'raise':
             continue
         v = p.value
         if v == T.NONE:
             srcs.append('none')
-            continue
-        if v[0] == 'a' and v[2] == 'closed_by':
+            ok4 = ok4 and live_fact(p) is False
+        elif v[0] == 'a' and v[2] == 'closed_by' and \
+                table_read(v[1], 'streams'):
             srcs.append('live')
-            ok4 = ok4 and any(
-                e.kind == 'assume' and e.cond[0] == 'in' and
-                e.cond[2][0] == 'a' and e.cond[2][2] == 'streams'
-                for e in p.events)
-        elif v[0] == 'sub' and v[1][0] == 'a' and \
-                v[1][2] == '_closed_streams':
+            ok4 = ok4 and live_fact(p) is True
+        elif table_read(v, '_closed_streams'):
             srcs.append('closed')
+            if table_read(v, '_closed_streams') == 'get':
+                srcs.append('none')      # .get yields None when absent
             # reached only when the id is not live
-            ok4 = ok4 and any(
-                e.kind == 'assume' and e.cond[0] == 'not' and
-                e.cond[1][0] == 'in' and e.cond[1][2][2] == 'streams'
-                for e in p.events)
+            ok4 = ok4 and live_fact(p) is False
         else:
             ok4 = False
     ctx.ob('FSM.layer3', fi2.qual, 'closed-by lookup order',
@@ -425,12 +439,10 @@ def check_receive_frame(eng, ctx):
         for p in eng.I.run(f3):
             if p.exit != 'return':
                 continue
-            v = p.value
-            if v[0] == 'in' and v[1][0] == 'call' and \
-                    v[1][1].endswith('_stream_closed_by') and \
-                    cm.tuple_items(v[2]) is not None:
-                got = {cm.enum_name(x) for x in cm.tuple_items(v[2])}
-                good = got == members
+            mf = cm.member_form(p.value)
+            if mf is not None and mf[0][0] == 'call' and \
+                    mf[0][1].endswith('_stream_closed_by'):
+                good = mf[1] == members
         ctx.ob('FSM.layer3', f3.qual, 'closed-by classification', good,
                'membership of _stream_closed_by(id) in %s' % sorted(members),
                node=f3.node)
